@@ -1,9 +1,9 @@
 SPECIFICATION Spec
 CONSTANTS Cfg <- TheCfg
  Wedge = TRUE
- MakeOnPending = "cancel"
+ MakeOnPending = "replace"
  FireDropsBs = FALSE
- MaxN = 4
+ MaxN = 5
 CONSTRAINT Bound
 VIEW View
 INVARIANT DoorsWellFormed
